@@ -102,8 +102,7 @@ Check some_null_is_lost_text. Check depth_limit_is_sharp. Check wf_exclusions_ar
 
 (* tie: the functions this property's model describes by hand (not by translation) still have the pinned text; an
    edit to one of them breaks this obligation and sends the check searching for a failing input *)
-From VL Require Import ShapeFacts.
 From VLG Require Import ShapeGen.
 Theorem C17_modelled_code_is_the_pinned_text : shapes_for_C17 = true.
-Proof. exact shapes_C17_ok. Qed.
+Proof. vm_compute. reflexivity. Qed.
 Print Assumptions C17_modelled_code_is_the_pinned_text.
